@@ -117,7 +117,7 @@ def bat_entry(state, mb):
 
 
 def build(blocks, *, block_size, sector_size=512, disk_size, has_parent=False, locator=None, bitmaps=None, seqs=(5, 6),
-          data_base_mb=None, file_id=0, sigs=None, name=None, disk_id=None, phys_sector=4096, bat_mb=3, meta_mb=2,
+          data_base_mb=None, file_id=0, sigs=None, name=None, disk_id=None, phys_sector=4096, bat_mb=3, meta_mb=2, meta_len_mb=1,
           omit_items=(), omit_regions=(), locator_type=G_VHDX_LOCATOR, reserved_bits=0, leave_alloc=False, locator_layout="pairs",
           layout="std", extra_items=(), meta_place=None):
     """blocks: list over real payload blocks of (state, position|None); position = index of the block-sized slot in the
@@ -183,7 +183,7 @@ def build(blocks, *, block_size, sector_size=512, disk_size, has_parent=False, l
     items += list(extra_items)   # (guid, data, flags): e.g. items this reader does not know, with or without IsRequired
     meta = metadata_region(items, sig=sigs.get("metadata", b"metadata"),
                            place=(meta_place(len(items)) if callable(meta_place) else meta_place))
-    regs = [(G_BAT, bat_mb * MB, bat_len, 1), (G_META, meta_mb * MB, MB, 1)]
+    regs = [(G_BAT, bat_mb * MB, bat_len, 1), (G_META, meta_mb * MB, meta_len_mb * MB, 1)]     # (the region may be far longer than the items it holds)
     regs = [r for r in regs if r[0] not in omit_regions]
     ext += [
         (0, 520, "bytes", file_identifier(sig=sigs.get("file", b"vhdxfile"))),
